@@ -153,3 +153,15 @@ CHECKS["C29"] = dict(
     level_note="Generator keys are derived; the registry of known miners is the real node registry. Tampering of a transaction's own content is C30's subject; here transactions are replaced, dropped, duplicated, reordered or given another output hash.",
     parts=[dict(pkg=BLK, run="^TestC29_HashCommitsToContents$", quick=1500, thorough=150000, floor=100)],
 )
+BDB = "0chain.net/sharder/blockdb"
+BST = "0chain.net/sharder/blockstore"
+CHECKS["C26"] = dict(
+    level="fault_enumeration", engine="E4",
+    technique="property-based round-trip testing on real files with generated crash faults (file prefix truncation, stale files from a crashed attempt) and a per-lookup watchdog",
+    level_text="Generated record sets are written through the real BlockDB, saved, reopened and read back (every key, absent keys below/between/above under a watchdog, full scan); generated blocks go through the real file-system block store; the crash model truncates the data, index or block file at generated offsets and re-creates databases over stale files; a read must return an error or exactly what was written.",
+    level_note="Crash faults are modelled as a prefix of the bytes written (plus leftovers of an earlier attempt); bit rot is out of the statement's scope. A lookup that does not return within 10 s (a loop over <= 64 keys) counts as a hang.",
+    parts=[
+        dict(pkg=BDB, run="^TestC26_BlockDB$", quick=600, thorough=60000, floor=50),
+        dict(pkg=BST, run="^TestC26_BlockStore$", quick=300, thorough=30000, floor=30),
+    ],
+)
